@@ -64,6 +64,11 @@ func (ms *mapStruct) ptr(offset int64, l int32) ([]byte, error) {
 	}
 	if windowSize < len+alignFudge {
 		windowSize = alignedLength(len + alignFudge)
+		if windowStart+windowSize > ms.fileSize {
+			// The rounded-up window must not extend past the end of the
+			// file, or the read below fails with io.EOF.
+			windowSize = ms.fileSize - windowStart
+		}
 	}
 	if windowSize > ms.pSize {
 		win := make([]byte, windowSize)
